@@ -265,10 +265,10 @@ def algebra_switch_points(ctx, spec, ev, rng, rays=3):
     """algebra vectors on both sides of every switch of ev (single algebra input), on random rays"""
     pts = []
     for _ in range(rays):
-        d = spec.alg_rand(rng, 1, hi=1.0)[0]
+        d = spec.alg_rand(rng, 1, hi=1.0, thi=10.0)[0]
         ang = spec.alg_angle(d[None, :])[0]
-        if ang == 0:
-            continue
+        if ang < 1e-2:  # dividing by a tiny angle would blow the translational part up to 1e60 (seen at seed 2: the
+            continue    # reference expm then loses relative accuracy and the check alarmed on correct code)
         d = d / ang
         # keep translations O(1): scale only makes sense for the rotation part, so scale whole vector
         for lo_s, hi_s in ((1e-5, 0.5), (0.5, 3.0)):
